@@ -345,6 +345,10 @@ def writer_slots(ctx, cq: str):
     M = ctx.M
     fn = M.fn(cq + ".write_string")
     rets = returns_of(fn.node)
+    if len(rets) == 1 and isinstance(rets[0].value, ast.JoinedStr):
+        # values named before the string is put together (`head = int(self.offset)`) stand for their definitions
+        fn = M.nfn(cq + ".write_string", subst=True)
+        rets = returns_of(fn.node)
     if len(rets) != 1:
         raise AnalysisError(f"{cq}.write_string: expected one return")
     rv = rets[0].value
@@ -405,6 +409,13 @@ def writer_slots(ctx, cq: str):
             if fields_in and fields_in <= declared_names and not any(
                     rf.same(_sym.parse(t)) for t in list(fields_in) + ["offset + length", "tail_offset"]):
                 slots[coord] = ("shift", _sym.text(e, lambda x: C.self_attr(x)), e)
+                continue
+            # a sum of separately truncated parts is not the truncated sum: int(a) + int(b) is up to 1 less than int(a + b)
+            if isinstance(e, ast.BinOp) and isinstance(e.op, ast.Add) and any(
+                    isinstance(x, ast.Call) and isinstance(x.func, ast.Name) and x.func.id in ("int", "round") and x.args and C.self_attr(x.args[0])
+                    for x in (e.left, e.right)) and fields_in == {"offset", "length"}:
+                slots[coord] = ("shift", "each term truncated on its own: up to 1 ms (and with both fractional parts >= 0.5, more than 1 ms) "
+                                         "before the end of the hold", e)
                 continue
             try:
                 leaf, ops = C.chain(e, leafp, res)
